@@ -19,12 +19,18 @@ func monitorReady(sc RScenario, o rOutcome) (vs []viol) {
 		vs = append(vs, viol{"spiffe-panic", "panic in the real code: " + o.Panic})
 	}
 	runCalled, replied, replyOK := false, false, false
+	runHeld := false // Run is (still) held by the harness before its Unlock
 	released := map[int]bool{}
 	cancelled := map[int]bool{}
 	for _, op := range sc.Ops {
 		switch op.Op {
-		case "run":
+		case "run", "runp":
 			runCalled = true
+			if op.Op == "runp" {
+				runHeld = true
+			}
+		case "rrel":
+			runHeld = false
 		case "ok", "fail":
 			if !replied {
 				replied, replyOK = true, op.Op == "ok"
@@ -40,7 +46,7 @@ func monitorReady(sc RScenario, o rOutcome) (vs []viol) {
 		before[i] = true
 	}
 	// clause 1: once the initial fetch finishes, every pending call returns
-	if runCalled && replied {
+	if runCalled && replied && !runHeld {
 		if o.NoRequest {
 			vs = append(vs, viol{"getsvid-before-run-deadlock",
 				"Run was called but its initial request never reached the issuer (Run is blocked): schedule " + sc.String()})
